@@ -137,6 +137,31 @@ CHECKS["C10"] = ("fault_enumeration",
     "Trusted: hook H5 (ConnEnd emitted by a drop guard after the request and its temp file are dropped). Disk-write "
     "failure is covered by the model only.", "4 C10")
 
+CHECKS["C12"] = ("model_checking",
+    "TLA+ Server.tla (accept loop pc, token set, permit, connection phases) model-checked by TLC (Limit, Conservation); "
+    "hook logs of real server runs validated event by event by TLC; exhaustive TokenSet API sequences",
+    "Server.tla has one action per await boundary of accept_loop and per connection phase; TLC checks Limit and "
+    "Conservation (avail + serviced + held-by-acceptor = max in every state) for Max=2/4 clients (quick) and Max=3/6 "
+    "clients (thorough, 2.0M states). Binding: 300 (quick) / 3000 (thorough) real server runs with max_conns 1..4, "
+    "2..3x clients and every ending kind; every hook event (sequence numbers assigned inside servlin) is one action of "
+    "Trace_Server with Limit and Conservation evaluated after each, slots fully conserved at quiescence, and a "
+    "positive refill observation (max gated handlers entered simultaneously). TokenSet/Token driven directly through "
+    "every API sequence to depth 6/8.",
+    "Trusted: TLC; hook placement (TokenReturn is logged before the unit is re-inserted, so log order is a valid "
+    "linearisation); EMFILE injection is model-only.", "4 C12")
+CHECKS["C13"] = ("model_checking",
+    "TLA+ Server.tla safety (StopOrder, AtMostOneMore) and liveness (revoked ~> stopped under weak fairness of server "
+    "actions only) model-checked by TLC, with the pre-repair design shown to violate it; hook logs of real server runs "
+    "with revocation at random phases validated by TLC",
+    "TLC checks Prompt == revoked ~> stopped on the finite model without state constraint, and finds the counterexample "
+    "(all slots idle, accept loop parked in WaitToken) when the token wait is not raced against the permit. Binding: "
+    "each real run ends with revocation at whatever phase its random history reached; the hook log must show listener "
+    "release before the stop signal, the harness must receive the signal within 5 s, a late connect must be refused, "
+    "no connection may read more than one request after the permit drop returned, and handlers running at revocation "
+    "must have their response written.",
+    "Trusted: TLC; bounded liveness observed as a 5 s deadline (typical latency is below 1 ms); RevokeBegin/RevokeDone "
+    "stamps bracket the permit drop so requests read during the drop are not miscounted.", "4 C13")
+
 NOT_APPLICABLE = {}
 
 
